@@ -109,11 +109,20 @@ def build_tools():
         # drop older tool dirs
         shutil.rmtree(os.path.join(BUILD, "tools"), ignore_errors=True)
         os.makedirs(d, exist_ok=True)
-        shutil.copy(os.path.join(REPO, "go.sum"), os.path.join(HARNESS, "go.sum"))
         p = sh(["go", "build", "-o", t.moq, "."], cwd=REPO, timeout=600)
         if p.returncode != 0:
             raise BuildError("moq does not build:\n" + p.stderr[-3000:])
-        p = sh(["go", "build", "-o", t.vh, "./cmd/vh"], cwd=HARNESS, timeout=600)
+        modfile = []
+        if REPO != "/repo":
+            # checks may be pointed at another tree (VERIF_REPO): same go.mod, other replace target
+            alt = os.path.join(d, "go.alt.mod")
+            with open(alt, "w") as f:
+                f.write(open(os.path.join(HARNESS, "go.mod")).read().replace("=> /repo", "=> " + REPO))
+            shutil.copy(os.path.join(REPO, "go.sum"), os.path.join(d, "go.alt.sum"))
+            modfile = ["-modfile=" + alt]
+        else:
+            shutil.copy(os.path.join(REPO, "go.sum"), os.path.join(HARNESS, "go.sum"))
+        p = sh(["go", "build"] + modfile + ["-o", t.vh, "./cmd/vh"], cwd=HARNESS, timeout=600)
         if p.returncode != 0:
             raise BuildError("harness does not build against /repo:\n" + p.stderr[-3000:])
         open(os.path.join(d, "ok"), "w").close()
